@@ -172,8 +172,11 @@ impl OutputFormat for TundraDraw {
             let mut cmd = data[o];
             o += 1;
             if cmd == TUNDRA_POSITION {
+                if o + 8 > data.len() {
+                    return Err(LoadingError::FileTooShort.into());
+                }
                 pos.y = to_u32(&data[o..]);
-                if pos.y >= (u16::MAX) as i32 {
+                if pos.y < 0 || pos.y >= (u16::MAX) as i32 {
                     return Err(io::Error::new(
                         io::ErrorKind::InvalidData,
                         format!(
@@ -186,7 +189,7 @@ impl OutputFormat for TundraDraw {
                 }
                 o += 4;
                 pos.x = to_u32(&data[o..]);
-                if pos.x >= result.get_width() {
+                if pos.x < 0 || pos.x >= result.get_width() {
                     return Err(anyhow::anyhow!(
                         "Invalid Tundra Draw file.\nJump x position {} out of bounds (width is {})",
                         pos.x,
@@ -198,6 +201,10 @@ impl OutputFormat for TundraDraw {
             }
 
             if cmd > 1 && cmd <= 6 {
+                let record_len = 1 + if cmd & TUNDRA_COLOR_FOREGROUND != 0 { 4 } else { 0 } + if cmd & TUNDRA_COLOR_BACKGROUND != 0 { 4 } else { 0 };
+                if o + record_len > data.len() {
+                    return Err(LoadingError::FileTooShort.into());
+                }
                 let ch = data[o];
                 o += 1;
                 if cmd & TUNDRA_COLOR_FOREGROUND != 0 {
